@@ -395,6 +395,101 @@ def pykka_stage(chk):
 
 
 # ---------------------------------------------------------------------------------------
+# stage 3c: listener.send / XListener.send / Listener.on_event vs Dispatch.v
+
+N_EVENTS = 7  # codes of c18_rt.DISPATCH_EVENTS; 4 = unknown event name, 5 = wrong arguments
+
+
+def gen_dispatch(rng):
+    listeners = []
+    for _ in range(rng.randint(1, 4)):
+        custom = int(rng.random() < 0.3)
+        pool = list(range(N_EVENTS)) if custom else [0, 1, 2, 3, 6]
+        raise_on = sorted(rng.sample(pool, rng.choice([0, 0, 1, 2])))
+        dies_at = [rng.randrange(N_EVENTS)] if rng.random() < 0.2 else []
+        listeners.append([custom, raise_on, dies_at])
+    events = [rng.randrange(N_EVENTS) for _ in range(rng.randint(3, 10))]
+    return {"listeners": listeners, "events": events}
+
+
+def beh_table(custom, raise_on):
+    out = []
+    for code in range(N_EVENTS):
+        if code in raise_on:
+            out.append(1)
+        elif custom:
+            out.append(0)
+        else:
+            out.append({4: 2, 5: 1}.get(code, 0))
+    return out
+
+
+def dispatch_stage(chk):
+    n = 120 if chk.tier == "quick" else 1500
+    corpus = [
+        {"listeners": [[0, [1], []], [1, [2], []], [0, [], [3]], [0, [], []]], "events": [0, 1, 2, 3, 4, 5, 6, 0]},
+        {"listeners": [[0, [], []]], "events": [4, 5, 4, 0]},
+        {"listeners": [[1, [0], []], [0, [0], []]], "events": [0, 0, 1]},
+    ]
+    cases = corpus + [gen_dispatch(chk.rng) for _ in range(n)]
+    results = run_parallel("dispatch", cases, per_case_timeout=35)
+    rows, ok = [], True
+    for i, c in enumerate(cases):
+        r = results.get(i)
+        if r is None or r.get("skipped"):
+            continue
+        if "hang" in r or "harness_error" in r:
+            ok = False
+            chk.corr_failure("dispatch", c, str(r)[:800])
+            continue
+        rows.append((c, r))
+        race = any(d for _, _, d in c["listeners"])
+        chk.count(1, nontrivial_key=("dispatch", json.dumps(c, sort_keys=True)))
+        chk.dist("dispatch_with_race" if race else "dispatch_no_race")
+        # property-side monitor (isolation): without the stop-during-send race every send returns
+        # and every listener that is still alive has handled every event it has a working handler for
+        if not race:
+            if any(x != 0 for x in r["sender"]):
+                chk.monitor_failure("listener_send_returns", {"race": False},
+                                    "listener.send raised in the sender although no listener stopped during the send",
+                                    {"case": c, "observed": r})
+            for (custom, raise_on, _d), (alive, handled) in zip(c["listeners"], r["final"]):
+                beh = beh_table(custom, raise_on)
+                if not custom:
+                    want = [e for e in c["events"] if beh[e] == 0]
+                    if not alive or handled != want:
+                        chk.monitor_failure("listener_isolation", {"custom": False},
+                                            "a listener with the default on_event died or missed/reordered events "
+                                            "because of its own or another listener's failures",
+                                            {"case": c, "observed": r, "expected_handled": want})
+    if rows:
+        chk.sample({"dispatch_case": rows[0][0], "observed": rows[0][1]})
+    shards = [rows[i:i + 300] for i in range(0, len(rows), 300)]
+
+    def g_dcase(c, r):
+        ls = g_list([f"({g_bool(cu)}, {g_list([g_z(x) + '%Z' for x in beh_table(cu, ro)])}, "
+                     f"{g_list([str(d) for d in di])})" for cu, ro, di in c["listeners"]])
+        fin = g_list([f"({g_bool(a)}, {g_list([str(x) for x in h])})" for a, h in r["final"]])
+        return (f"(mkDCase {ls} {g_list([str(e) for e in c['events']])} "
+                f"{g_list([g_z(x) + '%Z' for x in r['sender']])} {fin})")
+
+    texts = ["From Coq Require Import ZArith List Bool.\nImport ListNotations.\n"
+             "From Common Require Import Cases.\nFrom Actors Require Import Dispatch.\nOpen Scope nat_scope.\n"
+             "Definition cases : list dcase :=\n " + g_list([g_dcase(c, r) for c, r in sh]) + ".\n"
+             "Eval vm_compute in mismatches dispatch_ok cases.\n" for sh in shards]
+    for sh, (rc, out) in zip(shards, vlib.coq_eval_many(AREA, texts)):
+        bad = vlib.parse_nat_list(out)
+        if rc != 0 or bad is None:
+            ok = False
+            chk.corr_failure("dispatch", {"shard": "coq evaluation failed"}, out[-1500:])
+            continue
+        for i in bad:
+            ok = False
+            chk.corr_failure("dispatch", {"case": sh[i][0], "observed": sh[i][1]})
+    chk.obligation("corr:dispatch", "correspondence", ok and bool(rows))
+
+
+# ---------------------------------------------------------------------------------------
 # stage 4: shutdown correspondence
 
 
@@ -710,4 +805,5 @@ def run(chk):
         return
     waitfor_stage(chk)
     pykka_stage(chk)
+    dispatch_stage(chk)
     shutdown_stage(chk)
